@@ -74,12 +74,19 @@ def write_model(system, model, model_path,
     _increment_backups(model, root, max_backups)
 
     serializer = _get_serializer(version)
-    serializer.ModelWriter(system, model, root,
-                           is_zip=is_zip,
-                           log_input=log_input,
-                           compression=compression,
-                           compresslevel=compresslevel
-                           ).write_model()
+    try:
+        serializer.ModelWriter(system, model, root,
+                               is_zip=is_zip,
+                               log_input=log_input,
+                               compression=compression,
+                               compresslevel=compresslevel
+                               ).write_model()
+    except BaseException:
+        if not is_zip and root.is_dir():
+            # Remove the partially written directory, otherwise the next
+            # write would rotate it into the backups as if it were complete
+            shutil.rmtree(root, ignore_errors=True)
+        raise
 
     if model.path != root:
         model.path = root
